@@ -10,8 +10,11 @@ PW = B.lddw(10, 0x7000) + B.mov(0, 3) + B.EXIT               # accepted by "ends
 PBAD = B.mov(0, 4) + B.EXIT + B.insn(0x85, 0, 2, 0, 0) + B.EXIT   # unreachable call of unknown kind: accepted by accept-all only;
 #                                                               both compilers refuse it with an error
 PH = B.mov(1, 5) + B.mov(2, 0) + B.mov(3, 0) + B.mov(4, 0) + B.mov(5, 0) + B.insn(0x85, 0, 0, 0, 1) + B.EXIT   # calls helper 1
-PROGS = {'P1': P1, 'P2': P2, 'PW': PW, 'PBAD': PBAD, 'PH': PH}
-PCODE = {'P1': 1, 'P2': 2, 'PW': 3, 'PBAD': 4, 'PH': 5}
+# main -> f1 -> f2, f2 returns f1's frame size (f1 starts at a different pc in the two programs): interpreter only
+PC = B.callx(1) + B.EXIT + B.movr(6, 10) + B.callx(1) + B.EXIT + B.movr(0, 6) + B.alu('sub', 0, src=10) + B.EXIT
+PD = B.mov(0, 0) + B.callx(1) + B.EXIT + B.movr(6, 10) + B.callx(1) + B.EXIT + B.movr(0, 6) + B.alu('sub', 0, src=10) + B.EXIT
+PROGS = {'P1': P1, 'P2': P2, 'PW': PW, 'PBAD': PBAD, 'PH': PH, 'PC': PC, 'PD': PD}
+PCODE = {'P1': 1, 'P2': 2, 'PW': 3, 'PBAD': 4, 'PH': 5, 'PC': 6, 'PD': 7}
 VCODE = {'default': 0, 'accept': 1, 'reject': 2, 'exit': 3}
 
 HEADER = '''From Coq Require Import ZArith List Bool.
@@ -19,10 +22,11 @@ From RbpfV Require Import VmApi.
 Import ListNotations.
 Open Scope Z_scope.
 
-(* programs 1..5 = P1 P2 PW PBAD PH; verifiers 0..3 = default accept-all reject-all ends-in-exit-without-calls *)
+(* programs 1..7 = P1 P2 PW PBAD PH PC PD; verifiers 0..3 = default accept-all reject-all ends-in-exit-without-calls;
+   calculators: 0 = none installed (256 bytes per frame), c = the constant c *)
 Definition accepts (v p : Z) : bool :=
   match v with
-  | 0 => (p =? 1) || (p =? 2) || (p =? 5)
+  | 0 => (p =? 1) || (p =? 2) || (p =? 5) || (p =? 6) || (p =? 7)
   | 1 => true
   | 2 => false
   | _ => (p =? 1) || (p =? 2) || (p =? 3)
@@ -30,13 +34,16 @@ Definition accepts (v p : Z) : bool :=
 (* registrations, most recent first: 1 = helper id 1 bound to h_mix, 1001 = helper id 1 bound to h_clobber *)
 Fixpoint reg1 (h : list Z) : Z :=
   match h with [] => 0 | x :: r => if x =? 1 then 1 else if x =? 1001 then 2 else reg1 r end.
-Definition value (p : Z) (h : list Z) : Z + unit :=
+(* PC / PD return the frame size of their middle function: that of the table in use if it was computed from this very program *)
+Definition value (p : Z) (h : list Z) (u : option (Z * Z)) : Z + unit :=
   match p with 1 => inl 1 | 2 => inl 2 | 3 => inl 3 | 4 => inl 4
+  | 6 | 7 => match u with Some (q, c) => if q =? p then inl (if c =? 0 then 256 else c) else inl (-1) | None => inl (-1) end
   | _ => match reg1 h with 1 => inl 16 | 2 => inl 6 | _ => inr tt end end.   (* h_mix 5 0 0 0 0 = 16, h_clobber 5 .. = 6 *)
+Definition cvalue (p : Z) (h : list Z) : Z + unit := value p h None.
 Definition compilable (p : Z) (h : list Z) : bool := if p =? 5 then negb (reg1 h =? 0) else negb (p =? 4).
 Definition hadd (h : list Z) (id : Z) : list Z := id :: h.
 
-Definition opZ := op Z Z.
+Definition opZ := op Z Z Z.
 (* outputs as numbers: 0 ok, 1 err verifier, 2 no program, 3 not compiled, 4 compile error, 5 unknown helper, 100+v value *)
 Definition code (o : out) : Z :=
   match o with RUnit => 0 | RErrVerifier => 1 | RErrNoProgram => 2 | RErrNotCompiled => 3 | RErrCompile => 4
@@ -44,18 +51,18 @@ Definition code (o : out) : Z :=
 (* a case: initial program (0 = none), history, observed answers (first = answer of new: 0 ok / 1 refused) *)
 Definition check (c : Z * list opZ * list Z) : Z :=
   let '(p0, ops, obs) := c in
-  match i_new Z Z accepts 0 (list Z) (if p0 =? 0 then None else Some p0) [] with
+  match i_new Z Z accepts 0 (list Z) Z 0 (if p0 =? 0 then None else Some p0) [] with
   | None => if list_eqb_z obs [1] then 0 else 1
   | Some i =>
-      let model := 0 :: map code (i_run Z Z accepts (list Z) hadd value compilable i ops) in
-      let spec := 0 :: map code (a_run Z Z accepts (list Z) hadd value compilable (abs Z Z (list Z) i) ops) in
+      let model := 0 :: map code (i_run Z Z accepts (list Z) hadd Z value cvalue compilable i ops) in
+      let spec := 0 :: map code (a_run Z Z accepts (list Z) hadd Z value cvalue compilable (abs Z Z (list Z) Z i) ops) in
       (if list_eqb_z model obs then 0 else 1) + (if list_eqb_z spec obs then 0 else 2)
   end
 with_list_eqb.
 '''
-HEADER = HEADER.replace('''Definition opZ := op Z Z.''', '''Definition list_eqb_z (a b : list Z) : bool :=
+HEADER = HEADER.replace('''Definition opZ := op Z Z Z.''', '''Definition list_eqb_z (a b : list Z) : bool :=
   (length a =? length b)%nat && forallb (fun p => fst p =? snd p) (combine a b).
-Definition opZ := op Z Z.''').replace('\nwith_list_eqb.', '.')
+Definition opZ := op Z Z Z.''').replace('\nwith_list_eqb.', '.')
 
 OPS = ['setp:P1', 'setp:P2', 'setp:PW', 'setp:PBAD', 'setp:PH', 'setv:default', 'setv:accept', 'setv:reject', 'setv:exit',
        'helper:1:mix', 'helper:1:clobber', 'calc:64', 'jit', 'cl', 'x', 'xj', 'xc']
@@ -71,13 +78,15 @@ def op_line(o):
 def op_term(o):
     k = o.split(':')
     if k[0] == 'setp':
-        return '(OSetProgram Z Z %d)' % PCODE[k[1]]
+        return '(OSetProgram Z Z Z %d)' % PCODE[k[1]]
     if k[0] == 'setv':
-        return '(OSetVerifier Z Z %d)' % VCODE[k[1]]
+        return '(OSetVerifier Z Z Z %d)' % VCODE[k[1]]
     if k[0] == 'helper':
-        return '(ORegisterHelper Z Z %s)' % (k[1] if k[2] == 'mix' else '1001')
-    return {'calc': '(OSetCalc Z Z)', 'jit': '(OJitCompile Z Z)', 'cl': '(OCraneliftCompile Z Z)', 'x': '(OExec Z Z)',
-            'xj': '(OExecJit Z Z)', 'xc': '(OExecCranelift Z Z)'}[k[0]]
+        return '(ORegisterHelper Z Z Z %s)' % (k[1] if k[2] == 'mix' else '1001')
+    if k[0] == 'calc':
+        return '(OSetCalc Z Z Z %d)' % int(k[1])
+    return {'jit': '(OJitCompile Z Z Z)', 'cl': '(OCraneliftCompile Z Z Z)', 'x': '(OExec Z Z Z)',
+            'xj': '(OExecJit Z Z Z)', 'xc': '(OExecCranelift Z Z Z)'}[k[0]]
 
 
 def obs_code(o, tok):
@@ -109,6 +118,16 @@ def run(chk):
         for _ in range(20000 if thorough else 1200):
             n = 3 + rng.below(10)
             hists.append((rng.choice(inits), [rng.choice(OPS) for _ in range(n)]))
+        # histories in which the answer depends on the frame-size table: interpreter only (Cranelift refuses local calls, the JIT's
+        # frames are known finding D18), every history of length <= 4 over this alphabet and random longer ones
+        CALC_OPS = ['setp:P1', 'setp:PC', 'setp:PD', 'calc:64', 'calc:16', 'x']
+        for init in ('none', 'PC', 'P1'):
+            for n in ((1, 2, 3, 4, 5) if thorough else (1, 2, 3, 4)):
+                for h in itertools.product(CALC_OPS, repeat=n):
+                    if h[-1] == 'x':
+                        hists.append((init, list(h)))
+        for _ in range(4000 if thorough else 400):
+            hists.append((rng.choice(['none', 'PC', 'PD', 'P1']), [rng.choice(CALC_OPS) for _ in range(5 + rng.below(8))]))
         kinds = ['mbuff', 'raw', 'nodata', 'fixed']
         # directed: compiling again after something changed must pick the change up (helper re-bound, program reloaded), on every kind
         directed = []
